@@ -717,9 +717,11 @@ fn strategy() -> BoxedStrategy<Case11> {
 /// that write more than 4 KiB / 8 KiB of output inside one `run` (the debugger buffers program output between flushes)
 fn long_strategy() -> BoxedStrategy<Case11> {
     let steps = prop::sample::select(vec![0usize, 3, 100, 254, 255, 256, 257, 300, 511, 512, 513]);
-    (prop::sample::select(vec![38usize, 318, 702, 4222, 8318]), any::<bool>(), steps, 0usize..4, 0usize..4, prop::sample::select(vec![0usize, 1, 2, 5, 8]), any::<bool>())
-        .prop_map(|(n, print_out, k, back, again, bp, tail_exit)| {
-            let mut cmds = idiom_loop_clean(n, true, '♥');
+    // what a round prints: one-byte, three-byte, 3+2-byte and 4+1-byte groups (no power-of-two byte offset stays aligned with all of them)
+    let printed = prop::sample::select(vec![vec![33u32], vec![0xAC00], vec![0xAC00, 0xE9], vec![0x1F600, 33], vec![0xE9, 33, 0xD7A3]]);
+    (prop::sample::select(vec![38usize, 318, 702, 4222, 8318]), any::<bool>(), steps, 0usize..4, 0usize..4, prop::sample::select(vec![0usize, 1, 2, 5, 8]), any::<bool>(), printed)
+        .prop_map(|(n, print_out, k, back, again, bp, tail_exit, printed)| {
+            let mut cmds = idiom_loop_clean_chars(n, &printed, '♥');
             if !print_out {
                 // print to stderr instead
                 for c in cmds.iter_mut() {
